@@ -82,12 +82,13 @@ def caterpillar(n):
     return out
 
 
-HEIGHT_MODES = ['distinct', 'tied', 'ties', 'mono_unsorted', 'inf_tail', 'random']
+HEIGHT_MODES = ['distinct', 'tied', 'ties', 'mono_unsorted', 'distinct_unsorted', 'inf_tail', 'random']
 
 
 def heights_for(rng, pairs, n, mode):
     """Heights for the rows. 'distinct'/'ties'/'tied'/'inf_tail' are non-decreasing in the row order,
-    'mono_unsorted' never decreases towards the root but is not sorted by row, 'random' is arbitrary."""
+    'mono_unsorted' never decreases towards the root but is not sorted by row ('distinct_unsorted': the same
+    with pairwise distinct heights), 'random' is arbitrary."""
     m = len(pairs)
     if mode == 'distinct':
         hs, cur = [], 0.0
@@ -113,6 +114,18 @@ def heights_for(rng, pairs, n, mode):
             ha = hs[a - n] if a >= n else 0.0
             hb = hs[b - n] if b >= n else 0.0
             hs.append(max(ha, hb) + rng.choice([0.0, 1.0, 1.0, 2.5]))
+        return hs
+    if mode == 'distinct_unsorted':
+        # never decreasing towards the root, pairwise distinct, rows not in the order of the heights (when possible)
+        hs, used = [], set()
+        for (a, b) in pairs:
+            ha = hs[a - n] if a >= n else 0.0
+            hb = hs[b - n] if b >= n else 0.0
+            h = max(ha, hb) + rng.choice([0.25, 1.0, 3.0, 7.0])
+            while h in used:
+                h += 0.125
+            used.add(h)
+            hs.append(h)
         return hs
     if mode == 'random':
         return [float(rng.choice([0.5, 1.0, 2.0, 3.0, 4.0])) for _ in range(m)]
